@@ -363,6 +363,53 @@ def family_count(n):
 
 
 # ------------------------------------------------------------------------------------------------
+# the closure family: local functions reading / rebinding one captured variable, called directly and through
+# a sibling, with type-changing statements between definition and calls - every combination
+# ------------------------------------------------------------------------------------------------
+def _L(t):
+    return ('lit', t)
+
+
+CLO_G1 = [
+    [('return', ('name', 'x'))],
+    [('assign', 'y', ('name', 'x')), ('return', ('name', 'y'))],
+    ('x', [('assign', 'x', _L('float'))]),
+    ('x', [('assign', 'y', ('name', 'x')), ('assign', 'x', _L('str')), ('return', ('name', 'y'))]),
+    ('x', [('aug', 'x', '+', _L('float'))]),
+]
+CLO_G2 = [
+    None,
+    [('return', ('lcall', 'g1', []))],
+    ('x', [('assign', 'x', _L('float')), ('return', ('lcall', 'g1', []))]),
+    [('assign', 'y', ('lcall', 'g1', [])), ('return', ('name', 'x'))],
+    ('x', [('return', ('lcall', 'g1', []))]),                                  # declares x nonlocal, only calls
+    [('assign', 'x', _L('str')), ('return', ('lcall', 'g1', []))],            # a local x shadows the captured one
+]
+CLO_MAIN = [
+    ('expr', ('lcall', 'g1', [])), ('assign', 'y', ('lcall', 'g1', [])), ('expr', ('lcall', 'g2', [])),
+    ('assign', 'x', _L('float')), ('assign', 'x', _L('str')), ('aug', 'x', '+', _L('float')),
+    ('for', 'x', ('list', [_L('float')]), [('pass',)]), ('if', 'cb', [('assign', 'x', _L('float'))], []),
+]
+
+
+def closure_family(maxlen=3):
+    def fdef(name, spec):
+        nl, body = (['x'], spec[1]) if isinstance(spec, tuple) else ([], spec)
+        return ('def', name, [], nl, body)
+    for g1 in CLO_G1:
+        for g2 in CLO_G2:
+            main = [m for m in CLO_MAIN if g2 is not None or m != ('expr', ('lcall', 'g2', []))]
+            for n in range(1, maxlen + 1):
+                for seq in itertools.product(main, repeat=n):
+                    if not any(m[0] in ('expr', 'assign') and m[-1][0] == 'lcall' for m in seq):
+                        continue                      # no call at all: covered by the plain family
+                    body = [('assign', 'x', _L('int')), fdef('g1', g1)]
+                    if g2 is not None:
+                        body.append(fdef('g2', g2))
+                    yield dict(params=[('a', [['int']])], body=body + list(seq) + [('return', ('name', 'x'))])
+
+
+# ------------------------------------------------------------------------------------------------
 # random programs of the full class (closures, nonlocal, unpacking, external calls ...)
 # ------------------------------------------------------------------------------------------------
 class Gen:
